@@ -23,6 +23,7 @@ Definition xret := N.
 
 Inductive xpc :=
 | XIdle
+| XSendChecked                 (* passed the sticky-error check (errLock), about to read the session (sessionLock) *)
 | XSendHave (s : nat)          (* passed the error check, captured session s: about to ask Closed() *)
 | XSendWrite (s : nat)         (* about to Write *)
 | XAnnounced | XExcl           (* exclusive session lock: announced / held *)
@@ -136,20 +137,22 @@ Section WsClient.
         match x_ops l with
         | [] => None
         | (XSend _ _ | XSendRaw _ _) :: _ =>
-            if xg_err g then Some (g, xfin l 2, None)
-            else
-              match rlock (xg_SL g) t with
-              | None => None
-              | Some _ =>
-                  match xg_sess g with
-                  | None => Some (g, xfin l 1, None)
-                  | Some s => Some (g, xat l (XSendHave s), None)
-                  end
-              end
+            (* getErr(): its own critical section (errLock) *)
+            if xg_err g then Some (g, xfin l 2, None) else Some (g, xat l XSendChecked, None)
         | (XConnect _ | XDisconnect | XReconnect _) :: _ =>
             match wannounce (xg_SL g) t with
             | None => None
             | Some sl => Some (upd g (xg_sess g) (xg_err g) sl, xat l XAnnounced, None)
+            end
+        end
+    | XSendChecked =>
+        (* Session(): RLock sessionLock; read; RUnlock *)
+        match rlock (xg_SL g) t with
+        | None => None
+        | Some _ =>
+            match xg_sess g with
+            | None => Some (g, xfin l 1, None)
+            | Some s => Some (g, xat l (XSendHave s), None)
             end
         end
     | XSendHave s =>
